@@ -80,8 +80,10 @@ func (s *Store) batchRemoveVolumeSectors(id int64, force bool) (removed, lost in
 			}
 		}
 
-		const updateMetaQuery = `UPDATE storage_volumes SET total_sectors=total_sectors-$1 WHERE id=$2`
-		_, err = tx.Exec(updateMetaQuery, removed, id)
+		// a forced batch also deletes occupied slots: keep used_sectors in step, the
+		// removal may stop before the volume row is deleted
+		const updateMetaQuery = `UPDATE storage_volumes SET total_sectors=total_sectors-$1, used_sectors=used_sectors-$2 WHERE id=$3`
+		_, err = tx.Exec(updateMetaQuery, removed, lost, id)
 		if err != nil {
 			return fmt.Errorf("failed to update volume metadata: %w", err)
 		} else if err := incrementNumericStat(tx, metricTotalSectors, -int(removed), time.Now()); err != nil {
